@@ -5,7 +5,7 @@ from ..index import AnalysisError, dotted
 from ..astutil import text, short, endswith, calls_in, walk_no_nested, names_loaded, stmt_defs
 from .. import events as E
 from .. import types as T
-from ._h_E import Flow, arg, argn, nargs, return_cases
+from ._h_E import Flow, arg, argn, nargs, return_cases, own_helper, mutation_nodes_deep, args_by_params
 
 EXPLANATION = (
   "Decides the structural pairing behind undo: every path through every DocActions method that "
@@ -58,22 +58,74 @@ def _flow_of(fn):
   return fl
 
 
-def undo_ctor_of(fn, call, names):
+def undo_records(w, fn, cfg=None):
+  """[(cfg node, call, recorded expression or None)] for every statement of fn that puts an action
+  on the undo list: out_actions.undo.append/insert itself, or a call of a helper of the same class
+  that records its own argument on every path."""
+  out = []
+  dnames = set(w.doc_action_names())
+  for (n, c, nm) in fn.calls(cfg):
+    if E.is_undo_record(c, nm, fn):
+      args = list(c.args)
+      if endswith(nm, "undo.insert") and len(args) == 2:
+        args = args[1:]
+      out.append((n, c, args[0] if len(args) == 1 else None))
+      continue
+    h = own_helper(w, fn, c, exclude=dnames)
+    if h is None:
+      continue
+    hfn = w.fn_of(h)
+    hflow = _flow_of(hfn)
+    hps = h.params()[1:]
+    for (hn, hc, hnm) in hfn.calls():
+      if E.is_undo_record(hc, hnm, hfn) and len(hc.args) == 1 and \
+          hfn.cfg.dominated_by(hfn.cfg.exit.id, {hn.id}):
+        t = hflow.itext(hc.args[0], hn.id, stop=hps)
+        b = args_by_params(c, hps)
+        if t in hps and b is not None and t in b:
+          out.append((n, c, b[t]))
+  return out
+
+
+def undo_ctor_of(fn, call, names, expr=False):
   """The action constructor recorded by an undo.append/insert call: (kind, ctor Call) or None.
-  Follows locals (every binding reaching the call; a None placeholder is ignored)."""
-  args = list(call.args)
-  if endswith(fn.name(call), "undo.insert") and len(args) == 2:
-    args = args[1:]
+  Follows locals (every binding reaching the call; a None placeholder is ignored). With
+  expr=<recorded expression> the expression is given by the caller (see undo_records)."""
+  if expr is not False:
+    if expr is None:
+      return None
+    args = [expr]
+  else:
+    args = list(call.args)
+    if endswith(fn.name(call), "undo.insert") and len(args) == 2:
+      args = args[1:]
   if len(args) != 1:
     return None
   a = args[0]
   r = E.action_ctor(a, names)
   if r:
     return r
+  def strip(e):
+    while isinstance(e, ast.Call) and isinstance(e.func, ast.Attribute) and \
+        e.func.attr == "simplify" and not e.args and not e.keywords:
+      e = e.func.value
+    return e
   flow = _flow_of(fn)
   kinds = []
   for nid in flow.where(call)[:1]:
-    for l in flow.leaves(a, nid, split=False):
+    work = [(strip(a), nid)]
+    ls = []
+    depth = 0
+    while work and depth < 20:
+      depth += 1
+      e_, n_ = work.pop()
+      for l in flow.leaves(e_, n_, split=False):
+        e2 = strip(l.expr)
+        if e2 is not l.expr and isinstance(e2, ast.Name):
+          work.append((e2, l.nid))
+        else:
+          ls.append(l)
+    for l in ls:
       r = E.action_ctor(l.expr, names)
       if r:
         kinds.append(r)
@@ -102,8 +154,10 @@ def r1_r2_r3(run, w):
     fn = w.fn_of(cls.methods[an])
     fi = fn.fi
     cfg = fn.cfg
-    muts = E.mutation_nodes(fn)
-    undo_calls = [(n, c) for (n, c, nm) in fn.calls() if E.is_undo_record(c, nm, fn)]
+    muts = mutation_nodes_deep(w, fn, exclude=set(dnames))
+    recs = undo_records(w, fn)
+    undo_calls = [(n, c) for (n, c, x) in recs]
+    rec_expr = {id(c): x for (n, c, x) in recs}
     deleg = [(n, c, nm) for (n, c, nm) in fn.calls()
              if nm and nm.startswith("self.") and nm.split(".")[-1] in dnames and nm.count(".") == 1]
     if an in DELEGATES:
@@ -119,7 +173,7 @@ def r1_r2_r3(run, w):
     primary, extras = INVERSE[an]
     prim_nodes, extra_nodes = set(), set()
     for (n, c) in undo_calls:
-      k = undo_ctor_of(fn, c, names)
+      k = undo_ctor_of(fn, c, names, expr=rec_expr[id(c)])
       if k is None:
         run.ob(R2, fi.qualname, short(c), "undo record holds a recognisable action constructor",
                False, fi=fi, node=c)
@@ -594,6 +648,28 @@ SCHEMA_OWNERS = {
 }
 
 
+def _helper_of_owners(w, fi, is_owner, depth=2):
+  """Every call site of fi lies in an owner, or in a function of which the same holds: statements
+  of an owner that were extracted into a helper keep their place in the undo pairing (the helper
+  call counts as the owner's mutation in R1-R3)."""
+  from ._h_E import callgraph
+  cg = callgraph(w)
+  if not hasattr(cg, "_callers"):
+    cg.reaches(set())
+  callers = cg._callers.get(fi.qualname, set())
+  if not callers:
+    return False
+  for q in callers:
+    cfi = w.repo.funcs.get(q)
+    if cfi is None:
+      return False
+    if is_owner(cfi) or (depth > 0 and cfi.qualname != fi.qualname and
+                         _helper_of_owners(w, cfi, is_owner, depth - 1)):
+      continue
+    return False
+  return True
+
+
 def r8_ownership(run, w):
   R8 = run.rule("C01-R8", "column storage and Engine.schema are written only by DocActions "
                 "methods, the named engine/loader functions and the column classes themselves",
@@ -610,14 +686,18 @@ def r8_ownership(run, w):
       calls = fn.calls()
     except AnalysisError:
       raise
+    def docaction(f):
+      return f.cls is not None and f.cls.qualname == "docactions.DocActions" and f.name in dnames
     for (n, c, nm) in calls:
       if E.is_column_mutation(c, nm, fn):
         ok = in_column_class or is_docaction or fi.qualname in MUTATOR_OWNERS
+        ok = ok or _helper_of_owners(w, fi, lambda f: docaction(f) or f.qualname in MUTATOR_OWNERS)
         run.ob(R8, fi.qualname, short(c), "column mutator called from an owner of undo pairing",
                ok, fi=fi, node=c, nontrivial=False)
     sw = E.schema_write_nodes(fn)
     for s in sorted(sw):
       ok = is_docaction or fi.qualname in SCHEMA_OWNERS
+      ok = ok or _helper_of_owners(w, fi, lambda f: docaction(f) or f.qualname in SCHEMA_OWNERS)
       run.ob(R8, fi.qualname, short(fn.cfg.nodes[s].stmt), "schema written from a schema owner",
              ok, fi=fi, node=fn.cfg.nodes[s].stmt, nontrivial=False)
     # raw storage writes (self._data...) outside the column module
